@@ -13,7 +13,7 @@ one() {
   S=$(mktemp -d /var/tmp/mutrepo-XXXXXX)
   rsync -a --exclude .git --exclude coca_reporter /repo/ $S/repo/
   if ! (cd $S/repo && git apply --whitespace=nowarn "$VERIF_DIR/$d/patch.diff" 2>/dev/null); then echo "NOAPPLY $n"; rm -rf $S; return; fi
-  out=$(VERIF_REPO=$S/repo VERIF_OUT_DIR=$S/out bin/vsim check $id --tier ${TIER:-quick} 2>&1); code=$?
+  out=$(VERIF_MINIMISE=${VERIF_MINIMISE:-0} VERIF_REPO=$S/repo VERIF_OUT_DIR=$S/out bin/vsim check $id --tier ${TIER:-quick} 2>&1); code=$?
   cls=$(echo "$out" | grep 'violation class' | head -2 | sed 's/violation class: //' | tr '\n' ' ')
   case $code in
     1) echo "CAUGHT  $n ($id): $cls";;
